@@ -303,6 +303,17 @@ pub fn check(tier: &str) -> i32 {
             }
         }
     }
+    // trust a crash failure only if it fails again, twice, in a replay of the same execution
+    let (crash_viol, unreproduced) = c01::confirm(&crash_viol, &|f: &c01::Finding| {
+        let i = cwork.iter().position(|(c, h)| *h == f.history && serde_json::to_string(c).ok() == serde_json::to_string(&f.cfg).ok()).unwrap_or(0);
+        let d = scratch.dir.join(format!("c{i}"));
+        let r = c01::run_history(&d, &f.history, &f.cfg, if tier == "quick" { SnapMode::Coarse } else { SnapMode::Fine }, &Mutex::new(HashSet::new()), &Mutex::new(c01::Stats::default()), &Mutex::new(Vec::new()));
+        let _ = std::fs::remove_dir_all(&d);
+        r
+    });
+    for f in unreproduced.iter().take(5) {
+        eprintln!("UNREPRODUCED (not reported): crash {:?} {:?}: {:?}", f.history, f.crash.as_ref().map(|c| (&c.kind, &c.path)), f.violation);
+    }
     // verdicts
     clear_replays("C05");
     // exact-case known findings for (a) and (b)
